@@ -419,7 +419,24 @@ func exec(c vh.Case, o *vh.Out) {
 				}
 			}
 			o.Kind(fmt.Sprintf("handlers%d", len(hs)))
-			err := merkledag.WalkDepth(ctx, getLinks, walkCid(root), visit, opts...)
+			var err error
+			if conc != 1 && lim < 0 && root%2 == 0 {
+				// the plain Walk entry point with cid.Set.Visit (outputs of the parallel walk carry no depths)
+				o.Kind("Walk+cid.Set")
+				cs := cid.NewSet()
+				err = merkledag.Walk(ctx, getLinks, walkCid(root), func(c cid.Cid) bool {
+					res := cs.Visit(c)
+					rec.mu.Lock()
+					rec.visits = append(rec.visits, fmt.Sprintf("%d:?:%d", idx(c), b01(res)))
+					if res {
+						rec.visited[idx(c)] = true
+					}
+					rec.mu.Unlock()
+					return res
+				}, opts...)
+			} else {
+				err = merkledag.WalkDepth(ctx, getLinks, walkCid(root), visit, opts...)
+			}
 			rec.mu.Lock()
 			// ---- monitor
 			dist, aborts := within(nodes, root, lim, hs)
@@ -441,6 +458,23 @@ func exec(c vh.Case, o *vh.Out) {
 			for v := range rec.visited {
 				if _, ok := dist[v]; !ok {
 					o.Fail("visit-unreachable", "visited %d which is not within the limit", v)
+				}
+				// also when the walk aborted: a visited node was handed out by a visited (or the skipped) parent
+				if v != root {
+					okParent := false
+					for p, nd := range nodes {
+						if nd.kind != "ok" || !(rec.visited[p] || (skip && p == root)) {
+							continue
+						}
+						for _, k := range nd.links {
+							if k == v {
+								okParent = true
+							}
+						}
+					}
+					if !okParent {
+						o.Fail("visit-orphan", "visited %d although no visited node links to it", v)
+					}
 				}
 			}
 			if err == nil {
@@ -532,7 +566,20 @@ func exec(c vh.Case, o *vh.Out) {
 			if conc != 0 {
 				opts = append(opts, merkledag.Concurrency(conc))
 			}
-			err := merkledag.FetchGraphWithDepthLimit(ctx, fc[root], lim, dserv, opts...)
+			var pt *merkledag.ProgressTracker
+			fctx := ctx
+			if (root+len(hs))%2 == 0 {
+				pt = &merkledag.ProgressTracker{}
+				fctx = pt.DeriveContext(ctx)
+				o.Kind("progress-tracker")
+			}
+			var err error
+			if lim == -1 && root%2 == 1 {
+				o.Kind("FetchGraph")
+				err = merkledag.FetchGraph(fctx, fc[root], dserv, opts...)
+			} else {
+				err = merkledag.FetchGraphWithDepthLimit(fctx, fc[root], lim, dserv, opts...)
+			}
 			var got []string
 			gotSet := map[int]bool{}
 			for i := range nodes {
@@ -559,6 +606,43 @@ func exec(c vh.Case, o *vh.Out) {
 				}
 				if len(got) >= 4 {
 					o.Nontrivial()
+				}
+				if pt != nil && lim < 0 {
+					// every decodable block is fetched and counted exactly once by the progress tracker
+					want := 0
+					for i := range gotSet {
+						if kindOf(nodes, i) == "ok" {
+							want++
+						}
+					}
+					if pt.Value() != want || pt.ProgressStat().Nodes != want {
+						o.Fail("progress-count", "ProgressTracker counted %d nodes, %d decodable blocks were fetched", pt.Value(), want)
+					}
+				}
+				// a second, sequential walk over the now local DAG through the DAG service's link getter
+				seen := map[int]bool{}
+				cs := cid.NewSet()
+				werr := merkledag.Walk(ctx, merkledag.GetLinksWithDAG(dserv), fc[root], func(c cid.Cid) bool {
+					r := cs.Visit(c)
+					if r {
+						seen[idx(c)] = true
+					}
+					return r
+				}, buildOpts(hs, &recorder{visited: map[int]bool{}}, idx)...)
+				if lim < 0 {
+					if werr != nil {
+						o.Fail("error-class", "Walk over the fetched DAG returned %s although FetchGraph did not", errClass(werr))
+					}
+					for i := range dist {
+						if !seen[i] {
+							o.Fail("visit-missed", "Walk over the fetched DAG did not visit %d", i)
+						}
+					}
+					for i := range seen {
+						if _, ok := dist[i]; !ok {
+							o.Fail("visit-unreachable", "Walk over the fetched DAG visited %d", i)
+						}
+					}
 				}
 				o.Emit("fetched=%s err=nil", setOf(got))
 			} else {
